@@ -61,7 +61,19 @@ def _pipeline_body(req, d, gpath, tpath, out, ovl, windows, genome):
         pre = PreProcessor(gpath, tpath, out, req.get("reset_h5", False), genome, req.get("revise_anno", False))
         pre.process()
         files = []
-        for g_path, t_path in pre.data_filepaths():
+        pairs = list(pre.data_filepaths())
+        order = req.get("merge_order", "sorted")
+        if order == "reversed":
+            pairs = pairs[::-1]
+        elif isinstance(order, int):
+            import random as _r
+            _r.Random(order).shuffle(pairs)
+        if req.get("random_seed") is not None:
+            import random as _r
+            _r.seed(req["random_seed"])
+        jobs_then_merge = req.get("two_phase", False)
+        mjobs = []
+        for g_path, t_path in pairs:
             gd = GeneData.read(g_path)
             opath = os.path.join(ovl, gd.genome_id + "_" + gd.chromosome_unique_id + "_overlap.h5")
             job = _OverlapJob(gene_uid=gd.chromosome_unique_id, gene_path=g_path, te_path=t_path, output_filepath=opath,
@@ -69,6 +81,11 @@ def _pipeline_body(req, d, gpath, tpath, out, ovl, windows, genome):
                               result_queue=_StubQ(), stop_event=None)
             res = _calculate_overlap_job(job)
             mjob = process_genome.result_to_job(res, windows, out, None)
+            if jobs_then_merge:
+                mjobs.append(mjob)
+            else:
+                process_genome.calc_merge(mjob)
+        for mjob in mjobs:
             process_genome.calc_merge(mjob)
         for fn in sorted(os.listdir(out)):
             if fn.endswith(".h5"):
